@@ -1,8 +1,8 @@
 """C01 - Backup round trip is the identity on file trees."""
-from specs import snapshot, restore, c01_lemmas
+from specs import fsutil, snapshot, restore, c01_lemmas
 
 LEVEL = 'proof'
-UNITS = [
+UNITS = fsutil.units('C01') + [
     snapshot.flatten_unit('C01'),
     snapshot.stream_unit('C01'),
     snapshot.producer_unit('C01'),
@@ -17,7 +17,7 @@ BOUNDED = [
     {'name': 'C01.e2e', 'script': 'bounded/c01_e2e.py', 'timeout': 1200,
      'bound': '<= 4 files; sizes from the boundary family around alignment 4, min, max, 2*max (max <= 64); '
               'argument lists with repeats/overlaps/symlinks; pre-existing targets absent/shorter/equal/longer; '
-              'encrypted x {aes_gcm, chacha20} x {blake2b, sha2, sha3}; concurrency 1,2,5; thorough adds 150 seeded random cases. '
+              'encrypted x {aes_gcm, chacha20} x {blake2b, sha2, sha3}; concurrency 1,2,5; thorough adds 600 seeded random cases. '
               'The 16 MiB read piece of _stream_files is NOT reached (a closure default that cannot be shrunk without editing /repo).'},
 ]
 TRUSTED = [
